@@ -20,7 +20,7 @@ ASSUMPTIONS = ['object identity modelled as insertion index; observations the mo
                'adds after flatten() carry no explicit relation; no growth of nested blocks after flatten()']
 RULE = ('random histories of 4-14 commands: add operation / add sub-circuit / grow an already nested sub-circuit / apply_modifiers / flatten / set a registry duration / '
         'enter a global-duration override, interleaved with observations (operations+times, duration, acquisition indices, to_stim, copy, plot_circuit); every observation is '
-        'compared with a fresh replay of the same mutations with all earlier observations erased; plus fixed targeted histories (one per memo-invalidation site) and the observation x mutation matrix on one rich circuit ([build; observe O1; mutate M; duration; stim; acq; copy; listing] for 6 kinds of O1 x 9 kinds of M); non-trivial: >= 2 observations with a mutation in between')
+        'compared with a fresh replay of the same mutations with all earlier observations erased; plus fixed targeted histories (one per memo-invalidation site) and the observation x mutation matrix on one rich circuit ([build; observe O1; mutate M; duration; stim; acq; copy; listing] for 6 kinds of O1 x 9 kinds of M); non-trivial: >= 2 observations with a mutation in between' ' One fixed history moves a registry duration from 10^6 to 10^6 + 4 between two duration queries.')
 OBS = ['listing'] * 5 + ['duration'] * 3 + ['acq'] * 2 + ['stim'] * 2 + ['copy'] * 2 + ['plot']
 
 
